@@ -2,6 +2,9 @@ package drv
 
 import (
 	"fmt"
+	"os"
+	"path/filepath"
+	"regexp"
 	"strings"
 
 	"golang.org/x/tools/go/packages"
@@ -22,6 +25,7 @@ func sweepModule(pkgs []*packages.Package, target *packages.Package, m *Module, 
 		w := &m.Spec.Witness[i]
 		table[w.Method] = w
 	}
+	safeCfg := safeMethods(filepath.Join(opt.Root, strings.TrimPrefix(m.PkgRel, "./"), "config.yml"))
 	seen := map[string]bool{}
 	for _, fn := range e.ExportedFuncs(target.PkgPath) {
 		if opt.OnlyFunc != "" && fn.Name() != opt.OnlyFunc {
@@ -32,6 +36,10 @@ func sweepModule(pkgs []*packages.Package, target *packages.Package, m *Module, 
 		}
 		w := table[fn.Name()]
 		seen[fn.Name()] = true
+		if safeCfg[manifestName(fn.Name())] && (w == nil || !w.Safe) {
+			// declared safe in config.yml: must never change state, whatever the table says
+			w = &spec.WitnessReq{Method: fn.Name(), Safe: true, Tags: []string{"C03"}}
+		}
 		rep, err := e.SweepMethod(target.PkgPath, fn, w, m.Spec)
 		if err != nil {
 			errs = append(errs, fmt.Sprintf("%s: sweep of %s: %v", m.Name, fn.Name(), err))
@@ -45,4 +53,46 @@ func sweepModule(pkgs []*packages.Package, target *packages.Package, m *Module, 
 		}
 	}
 	return
+}
+
+// manifestName is the name under which the compiler exports a Go function.
+func manifestName(goName string) string {
+	if goName == "" {
+		return goName
+	}
+	return strings.ToLower(goName[:1]) + goName[1:]
+}
+
+var safeRe = regexp.MustCompile(`(?s)safemethods:\s*\[(.*?)\]`)
+var overloadRe = regexp.MustCompile(`(?m)^\s+(\w+):\s*(\w+)\s*$`)
+
+// safeMethods reads the safemethods list (and overloads) of a contract's config.yml.
+func safeMethods(path string) map[string]bool {
+	out := map[string]bool{}
+	b, err := os.ReadFile(path)
+	if err != nil {
+		return out
+	}
+	if m := safeRe.FindSubmatch(b); m != nil {
+		for _, it := range strings.Split(string(m[1]), ",") {
+			it = strings.Trim(strings.TrimSpace(it), "\"'")
+			if it != "" {
+				out[it] = true
+			}
+		}
+	}
+	// overloads: goName: exportedName
+	if i := strings.Index(string(b), "overloads:"); i >= 0 {
+		rest := string(b)[i+len("overloads:"):]
+		for _, ln := range strings.Split(rest, "\n")[1:] {
+			if m := overloadRe.FindStringSubmatch(ln); m != nil {
+				if out[m[2]] {
+					out[m[1]] = true
+				}
+			} else if strings.TrimSpace(ln) != "" {
+				break
+			}
+		}
+	}
+	return out
 }
